@@ -3,6 +3,7 @@
 #include <cstdint>
 #include <cstdio>
 #include <cstring>
+#include <list>
 #include <map>
 #include <memory>
 #include <sstream>
@@ -22,7 +23,7 @@ public:
     double d = 0;
     std::string s;
     std::vector<Json> a;
-    std::vector<std::pair<std::string, Json>> o;  // insertion ordered
+    std::list<std::pair<std::string, Json>> o;  // insertion ordered; list keeps references stable
 
     Json() = default;
     Json(bool v) : kind(Bool), b(v) {}
@@ -137,14 +138,18 @@ public:
                 break;
             case Obj:
                 out += '{';
-                for (size_t k = 0; k < o.size(); ++k)
+            {
+                bool first = true;
+                for (auto& kv : o)
                 {
-                    if (k) out += ',';
+                    if (!first) out += ',';
+                    first = false;
                     nl(level + 1);
-                    esc(out, o[k].first);
+                    esc(out, kv.first);
                     out += indent ? ": " : ":";
-                    o[k].second.dump(out, indent, level + 1);
+                    kv.second.dump(out, indent, level + 1);
                 }
+            }
                 if (!o.empty()) nl(level);
                 out += '}';
                 break;
